@@ -383,6 +383,57 @@ fn check_full_expr(env: &Env, e: &Expr, in_condition: bool, ex: &Excl) -> Option
             return hit;
         }
     }
+    if ex.has("y_borrow_with_nested_side_effect") && borrows_y(env, e) {
+        // top-level assignment / ++ of the statement itself does not count
+        let inner: Vec<&Expr> = match e {
+            Expr::Assign(_, lv, r) => {
+                let mut v = vec![&**r];
+                if let LValue::Index(_, i) = lv {
+                    v.push(&**i);
+                }
+                v
+            }
+            Expr::IncDec(_, _, LValue::Index(_, i)) => vec![&**i],
+            Expr::IncDec(_, _, _) => vec![],
+            other => vec![other],
+        };
+        let mut nested = false;
+        for x in inner {
+            walk(x, &mut |y| {
+                if matches!(y, Expr::Assign(_, _, _) | Expr::IncDec(_, _, _) | Expr::Comma(_, _)) {
+                    nested = true;
+                }
+            });
+        }
+        if nested {
+            return Some("y_borrow_with_nested_side_effect");
+        }
+    }
+    if ex.has("shr_of_16bit_in_8bit_context") {
+        // `>>` over an operand that involves a 16-bit object, evaluated for an 8-bit destination
+        let dest8 = match e {
+            Expr::Assign(_, lv, _) => lv_bits(env, lv) == 8,
+            _ => true,
+        };
+        if dest8 {
+            walk(e, &mut |x| {
+                if let Expr::Bin(BinOp::Shr, a, _) = x {
+                    let mut wide = false;
+                    walk(a, &mut |y| {
+                        if env.expr_ty(y).map(|t| t.bits() == 16).unwrap_or(false) {
+                            wide = true;
+                        }
+                    });
+                    if wide {
+                        hit = Some("shr_of_16bit_in_8bit_context");
+                    }
+                }
+            });
+            if hit.is_some() {
+                return hit;
+            }
+        }
+    }
     if ex.has("y_borrow_with_call") && borrows_y(env, e) {
         let mut call = false;
         walk(e, &mut |x| {
@@ -597,7 +648,15 @@ fn check_full_expr(env: &Env, e: &Expr, in_condition: bool, ex: &Excl) -> Option
                     }
                     match op {
                         None => yields(r, l),
-                        Some(BinOp::Or | BinOp::Xor | BinOp::Add | BinOp::Sub | BinOp::Shl | BinOp::Shr) => const_eval(r) == Some(0),
+                        Some(BinOp::Or | BinOp::Xor | BinOp::Add | BinOp::Sub) => {
+                            let eight = env.ty(l).map(|t| t.bits() == 8).unwrap_or(true);
+                            match const_eval(r) {
+                                Some(0) => true,
+                                Some(v) => eight && (v & 0xff) == 0,
+                                None => false,
+                            }
+                        }
+                        Some(BinOp::Shl | BinOp::Shr) => const_eval(r) == Some(0),
                         Some(BinOp::And) => matches!(const_eval(r), Some(255) | Some(-1) | Some(65535)),
                         _ => false,
                     }
@@ -735,7 +794,10 @@ fn check_list(env: &mut Env, v: &[Stmt], ex: &Excl) -> Option<&'static str> {
             }
         }
         if ex.has("reg_store_then_test") {
-            if let Stmt::Expr(Expr::Assign(None, LValue::Var(n), r)) = s {
+            if let Stmt::Expr(Expr::Assign(None, lv, r)) = s {
+                let n = match lv {
+                    LValue::Var(n) | LValue::Index(n, _) | LValue::Deref(n) => n,
+                };
                 if matches!(&**r, Expr::Lv(LValue::Var(v)) if v == "X" || v == "Y") {
                     if let Some(e) = v.get(i + 1).and_then(first_expr) {
                         if mentions(e, n) {
@@ -818,7 +880,17 @@ fn check_stmt(env: &mut Env, s: &Stmt, ex: &Excl) -> Option<&'static str> {
                         sc = true;
                     }
                 });
-                sc && first_expr(eb).map(|e| (has_truth_test(e) || matches!(&**eb, Stmt::If(..) | Stmt::While(..) | Stmt::Switch(..))) && shares_var(c, e)).unwrap_or(false)
+                fn first_stmt(s: &Stmt) -> &Stmt {
+                    match s {
+                        Stmt::Block(b) if !b.is_empty() => first_stmt(&b[0]),
+                        Stmt::Label(_, x) => first_stmt(x),
+                        o => o,
+                    }
+                }
+                let fs = first_stmt(eb);
+                sc && first_expr(fs)
+                    .map(|e| (has_truth_test(e) || matches!(fs, Stmt::If(..) | Stmt::While(..) | Stmt::Switch(..))) && shares_var(c, e))
+                    .unwrap_or(false)
             } =>
         {
             Some("else_after_shortcircuit")
